@@ -80,6 +80,7 @@ class Sched(object):
         self.done = [False] * n
         self.event = None
         self.names = {'c35-w%d' % i: i for i in range(n)}
+        self.acquired = []        # [thread, lock name] of provider-lock acquisitions since the controller last looked
     def me(self):
         return self.names.get(threading.current_thread().name)
     # -- worker side
@@ -124,6 +125,7 @@ class SchedLock(object):
         if i is None: return self.lock.acquire(*args, **kwargs)
         while not self.lock.acquire(False):
             self.sched.yield_(i, 'blocked', self.name)
+        self.sched.acquired.append([i, self.name])
         return True
     def release(self): self.lock.release()
     def locked(self): return self.lock.locked()
@@ -257,7 +259,8 @@ def run_case(workdir, case):
         waiting[i] = None
         wname = 'c35-w%d' % i
         kind, payload = sched.resume(i, lambda: any(ev['outcome'] is None and ev['thread'] == wname for ev in tr.events[-3 * n:]))
-        entry = {'t': i, 'kind': kind, 'payload': payload, 'db': None}
+        entry = {'t': i, 'kind': kind, 'payload': payload, 'db': None, 'acq': list(sched.acquired)}
+        del sched.acquired[:]
         log.append(entry)
         if kind == 'hung':
             problem = {'what': 'hung', 'thread': i, 'step': len(log) - 1}
@@ -439,20 +442,84 @@ def model_request(case, obs):
     return req, expect
 
 
+def model_request_fine(case, obs):
+    """call-granularity run -> model schedule by LINEARISATION POINTS: the model's step of an operation is placed at the
+    scheduler step in which its deciding DB-API call ran:
+        begin        the step in which the thread got provider.transaction_lock (acquire_lock + BEGIN IMMEDIATE follow without
+                     anybody else being able to get in); a failed attempt is a `blocked` begin
+        load / locking load / UPDATE   the step in which the operation returned (its SELECT / UPDATE ran in that step)
+        commit (final or in the middle) the step in which connection.commit() ran (the lock is released right after it)
+        a failing operation / rollback  the step in which the session's first connection.rollback() ran (lock released there)
+    Single lock domain only (the busy wait of a foreign writer is not a point).  Returns (request, expected results, log index of
+    every model step) or None."""
+    threads = case['threads']
+    if any(t['dom'] != 0 for t in threads): return None
+    n = len(threads)
+    fail_at = [None] * n
+    for e in obs['log']:
+        if e['kind'] == 'end' and e['payload'][1] != 'ok': fail_at[e['t']] = e['payload']
+    pos, parked, placed = [0] * n, [None] * n, [set() for _ in range(n)]
+    upd_val = {}
+    for e in obs['log']:
+        if e['kind'] == 'action': upd_val[(e['t'], e['payload'][0])] = e['payload'][1]
+    sched, expect, where = [], [], []
+    def mact(i, j):
+        a = threads[i]['prog'][j]
+        if a[0] == 'read': return ['read', a[1]]
+        if a[0] == 'lock': return ['lock', a[1]]
+        if a[0] == 'update': return ['update', a[1], upd_val.get((i, j)) or 0]
+        if a[0] == 'commit_mid': return ['commitMid']
+        return [a[0]]
+    def put(i, m, res, si):
+        sched.append([i, m]); expect.append(res); where.append(si)
+    for si, e in enumerate(obs['log']):
+        i, kind, payload = e['t'], e['kind'], e['payload']
+        prog = threads[i]['prog']
+        performed, parked[i] = parked[i], (payload if kind == 'call' else None)
+        for t, name in e.get('acq', []):
+            if name == 'lock': put(t, ['begin'], ['ok', None], si)
+        j = pos[i]
+        if performed is not None and j < len(prog):
+            if performed[0] == 'commit' and prog[j][0] in ('commit', 'commit_mid') and j not in placed[i] and not (fail_at[i] and fail_at[i][0] == j):
+                put(i, mact(i, j), ['ok', None], si); placed[i].add(j)
+            elif performed[0] == 'rollback' and fail_at[i] is not None and fail_at[i][0] == j and j not in placed[i]:
+                out = fail_at[i][1]
+                put(i, mact(i, j), {'Abort': ['ok', None], 'busy': ['busy']}.get(out, [out]), si); placed[i].add(j)
+        if kind == 'blocked':
+            put(i, ['begin'], ['blocked'], si)
+        elif kind == 'action':
+            j, v = payload
+            if j not in placed[i]:
+                a = prog[j]
+                put(i, mact(i, j), ['ok', None if a[0] in ('update', 'commit_mid') else v], si); placed[i].add(j)
+            pos[i] = j + 1
+        elif kind == 'end':
+            j, out = payload
+            if j not in placed[i]:
+                put(i, mact(i, j), {'ok': ['ok', None], 'Abort': ['ok', None], 'busy': ['busy']}.get(out, [out]), si); placed[i].add(j)
+        elif kind == 'hung': return None
+    req = {'op': 'run', 'n': max(n, max(OBJS) + 1), 'objs': OBJS, 'db': [[o, INITIAL[o]] for o in OBJS],
+           'cfg': [MODES[t['mode']][1] for t in threads], 'dom': [t['dom'] for t in threads], 'sched': sched}
+    return req, expect, where
+
+
 def check_model(ctx, case, obs, req_expect, m):
     cj = case_json(case)
     if 'driver_error' in m:
         ctx.divergence('driver error', cj, model=m); return
-    req, expect = req_expect
+    req, expect = req_expect[0], req_expect[1]
+    where = req_expect[2] if len(req_expect) > 2 else list(range(len(expect)))
+    last_of = {si: k for k, si in enumerate(where)}            # several model steps may sit at one scheduler step: compare rows after the last
     for k, (r, x) in enumerate(zip(m['res'], expect)):
         if r != x:
-            ctx.divergence('model and real sessions disagree on the result of scheduler step %d %r' % (k, req['sched'][k]), cj, model=r, impl=x)
+            ctx.divergence('model and real sessions disagree on the result of model step %d %r (scheduler step %d)' % (k, req['sched'][k], where[k]), cj, model=r, impl=x)
             return
         dbm = {o: v for o, v in m['trace'][k]}
-        if dbm != obs['log'][k]['db']:
-            ctx.divergence('model and real database disagree on the committed rows after scheduler step %d %r' % (k, req['sched'][k]), cj,
-                           model=dbm, impl=obs['log'][k]['db'])
+        if last_of[where[k]] == k and obs['log'][where[k]]['db'] is not None and dbm != obs['log'][where[k]]['db']:
+            ctx.divergence('model and real database disagree on the committed rows after model step %d %r (scheduler step %d)' % (k, req['sched'][k], where[k]), cj,
+                           model=dbm, impl=obs['log'][where[k]]['db'])
             return
+    ctx.count('model-compared:' + ('call-granularity' if len(req_expect) > 2 else 'operation-granularity'))
     if (m['lost'] and not m['unguarded']) or m['broken']:
         ctx.divergence('the model\'s monitor fired (contradicts its theorems)', cj, model={'lost': m['lost'], 'broken': m['broken']})
     for p in m['res']: ctx.count('model-res:' + p[0])
@@ -608,13 +675,20 @@ def dialect_text(ctx):
         with db_session:
             for nowait, skip in combos:
                 texts = {}
-                texts['query'] = select(t for t in T if t.x > 1).for_update(nowait=nowait, skip_locked=skip).get_sql()
-                db.sql = None
-                T.get_for_update(id=1, nowait=nowait, skip_locked=skip)
-                texts['get'] = db.sql
-                db.sql = None
-                T.get_for_update(lambda t: t.x == 3, nowait=nowait, skip_locked=skip)
-                texts['lambda_get'] = db.sql
+                def attempt(how, fn):
+                    try: texts[how] = fn()
+                    except Exception as e:
+                        texts[how] = None
+                        ctx.count('text:call-raised')
+                        ctx.divergence('a locking call raised on the offline %s provider' % prov, {'dialect': prov, 'how': how, 'nowait': nowait, 'skip_locked': skip},
+                                       impl='%s: %s' % (type(e).__name__, e))
+                def by_get():
+                    db.sql = None; T.get_for_update(id=1, nowait=nowait, skip_locked=skip); return db.sql
+                def by_lambda():
+                    db.sql = None; T.get_for_update(lambda t: t.x == 3, nowait=nowait, skip_locked=skip); return db.sql
+                attempt('query', lambda: select(t for t in T if t.x > 1).for_update(nowait=nowait, skip_locked=skip).get_sql())
+                attempt('get', by_get)
+                attempt('lambda_get', by_lambda)
                 texts['plain'] = select(t for t in T if t.x > 1).get_sql()
                 for how, sql in texts.items():
                     reqs.append({'op': 'clause', 'dialect': prov, 'nowait': nowait and how != 'plain', 'skip': skip and how != 'plain'})
@@ -630,6 +704,7 @@ def dialect_text(ctx):
     outs = ctx.driver('C35', reqs)
     for (prov, how, nowait, skip, sql), m in zip(reals, outs):
         ctx.case(['text', prov, how, nowait, skip], kind='text:' + prov)
+        if sql is None: continue          # the call raised (reported above)
         clause = m.get('clause')
         tail = ' '.join((sql or '').split())
         want = clause if how != 'plain' else ''
@@ -688,8 +763,8 @@ def evaluate(ctx, cases, res):
             for a in t['prog']:
                 if a[0] == 'lock': ctx.count('lock-variant:' + a[2])
                 if a[0] == 'commit_mid': ctx.count('mid-commit:%s:%s' % (a[1], t['mode']))
-        if not c['fine'] and obs['problem'] is None and ctx.driver.ok:
-            re_ = model_request(c, obs)
+        if obs['problem'] is None and ctx.driver.ok:
+            re_ = model_request_fine(c, obs) if c['fine'] else model_request(c, obs)
             if re_ is not None:
                 reqs.append(re_[0]); idx.append((c, obs, re_))
     if reqs:
